@@ -159,7 +159,7 @@ def extraction(db, rep, lname, lself):
     cfg = db.config
     v = common.layout_method(db, lself, 'verify_public_input', 'C14')
     fl = dataflow.Flow(db, v)
-    guards = dataflow.own_guards(db, v, fl)
+    guards = dataflow.effective_guards(db, v.path)
 
     def norm(s):
         return GT.norm_side(db, s)
@@ -167,7 +167,8 @@ def extraction(db, rep, lname, lself):
     for g in guards:
         l, r = norm(g.lhs), norm(g.rhs)
         both = l | r
-        if any(fieldflow.canon(x) == 'a1.main_page.address' for x in both) and getattr(g, 'kind', None) not in ('discr',):
+        if any(fieldflow.canon(x) == 'a1.main_page.address' for x in both) and getattr(g, 'kind', None) not in ('discr',) \
+                and g.rel == 'EQ':
             addr_guards.append((g, l, r))
     prog = [g for g, l, r in addr_guards if any(x in ('idx:PROGRAM', 'val:1') or x.endswith('INITIAL_PC') for x in l | r)]
     outp = [g for g, l, r in addr_guards if 'idx:OUTPUT' in (l | r)]
@@ -184,7 +185,8 @@ def extraction(db, rep, lname, lself):
     for g in guards:
         l, r = norm(g.lhs), norm(g.rhs)
         both = l | r
-        if any(x.startswith('len(a1.main_page') for x in both) and any(x.startswith('idx:EXECUTION') or x.startswith('idx:PROGRAM') for x in both):
+        page = any(x.startswith('len(a1.main_page') or fieldflow.canon(x) == 'a1.main_page' for x in both)
+        if page and any(x.startswith('idx:EXECUTION') or x.startswith('idx:PROGRAM') for x in both) and g.reject in ('err', 'mixed'):
             lens.append(g)
     rep.ob('C14.address', f'{lname}/program-length', bool(lens),
            f'{lname}::verify_public_input must reject a main page shorter than the program (iterator take() silently yields fewer cells)',
